@@ -98,17 +98,36 @@ Print Assumptions C15_v2_fifo.
    been called is never dropped - exactly one handle to it exists (its own thread before
    push_back, the queue, or one thread about to call try_complete); and the Dekker property of
    locked_ / queue_: when locked_ is false and a waiter is queued, some thread is between its
-   push_back and its locked_.exchange or between locked_.store(false) and the re-check.
-   FULL STATEMENT (not proved here, see the report): with the repaired forwarder every reachable
-   non-quiescent state has an enabled thread (no deadlock), hence if every holder unlocks every
-   started uncancelled lock completes.  The K1 exploration checks it on every explored schedule
-   (a starved locker fails the driver's monitor). *)
-Theorem C15_v2_no_lost_waiter_partial : forall (fx : bool) (hs : list bool) (nt : nat) (sched : list nat),
+   push_back and its locked_.exchange or between locked_.store(false) and the re-check. *)
+Theorem C15_v2_no_lost_waiter : forall (fx : bool) (hs : list bool) (nt : nat) (sched : list nat),
   let s := fst (run step sched (init fx hs nt, [])) in
   (forall k, k < nl s -> o_completed (ops s k) = false -> handles s k = 1) /\
   (locked s = false -> queue s <> [] -> guards s >= 1).
 Proof. exact no_lost_waiter. Qed.
-Print Assumptions C15_v2_no_lost_waiter_partial.
+Print Assumptions C15_v2_no_lost_waiter.
+
+(* No deadlock, repaired forwarder: every reachable state in which some thread has not finished
+   (a locker waiting for its receiver, in particular) has a thread that can move: a queued waiter
+   always has a holder that can run unlock(), a thread in the Dekker window, or a completion in
+   flight; spin waits (source spin lock, callbackCompleted_, sync_complete, link locks of
+   in-flight push_back / pop_front) always have their releaser enabled.  (For the forwarder as it
+   is this is false: Example C15_v2_example_leak_starves_waiter below.) *)
+Theorem C15_v2_progress : forall (hs : list bool) (nt : nat) (sched : list nat),
+  let s := fst (run step sched (init true hs nt, [])) in
+  quiescent s = false -> exists t, step t s <> None.
+Proof. exact progress. Qed.
+Print Assumptions C15_v2_progress.
+
+(* At quiescence every locker's receiver has been completed exactly once (set_value, then it
+   released the mutex; or set_done), the queue is empty and - repaired forwarder - the mutex is
+   unlocked.  Together with C15_v2_progress: if every holder unlocks, every started lock
+   operation completes, the uncancelled ones with the mutex (C15_v2_cancelled_never_owns). *)
+Theorem C15_v2_served_at_quiescence : forall (fx : bool) (hs : list bool) (nt : nat) (sched : list nat),
+  let s := fst (run step sched (init fx hs nt, [])) in
+  quiescent s = true ->
+  (forall i, i < nl s -> length (o_res (ops s i)) = 1) /\ queue s = [] /\ (fx = true -> locked s = false).
+Proof. exact served_at_quiescence. Qed.
+Print Assumptions C15_v2_served_at_quiescence.
 
 (* the full state invariant *)
 Theorem C15_v2_inv_reachable : forall (fx : bool) (hs : list bool) (nt : nat) (sched : list nat),
